@@ -62,6 +62,10 @@ pub enum ModelEvaluatorError {
   EmptyFunctionBody,
   #[error("empty value expression")]
   EmptyValueExpression,
+  #[error("cyclic dependency, `{0}` depends on itself")]
+  CyclicDependency(String),
+  #[error("rule has {0} {1} entries, but the decision table has {2} {1} clauses")]
+  InvalidNumberOfEntries(usize, String, usize),
   #[error("read lock failed with reason '{0}'")]
   ReadLockFailed(String),
   #[error("write lock failed with reason '{0}'")]
@@ -124,6 +128,14 @@ pub fn err_empty_function_body() -> DmntkError {
 
 pub fn err_empty_value_expression() -> DmntkError {
   ModelEvaluatorError::EmptyValueExpression.into()
+}
+
+pub fn err_cyclic_dependency(s: &str) -> DmntkError {
+  ModelEvaluatorError::CyclicDependency(s.to_string()).into()
+}
+
+pub fn err_invalid_number_of_entries(actual: usize, kind: &str, expected: usize) -> DmntkError {
+  ModelEvaluatorError::InvalidNumberOfEntries(actual, kind.to_string(), expected).into()
 }
 
 pub fn err_read_lock_failed(reason: impl ToString) -> DmntkError {
